@@ -66,6 +66,17 @@ func C05_reject_step() {
 	tooLarge := vAnd(!broken, vAnd(max > 0, L > uint64(max)))
 	// keep accepted intermediate control payloads within the 3 bytes the stub can serve
 	vAssume(vImplies(vAnd(!broken, vAnd(!tooLarge, vAnd(frag, op&8 != 0))), L <= 3))
+	// with the RFC header check switched off (SkipHeaderCheck) the size limit still holds
+	if vChoose("skipheadercheck", 2) == 1 {
+		rd.SkipHeaderCheck = true
+		// (only frames over the limit: what an unchecked header under the limit makes the reader
+		// do is outside this property)
+		vAssume(vAnd(max > 0, L > uint64(max)))
+		_, err := rd.NextFrame()
+		vAssert(err == ErrFrameTooLarge, "step.size_limit_holds_without_header_check")
+		vAssert(src.pos == hs, "step.no_payload_byte_consumed_without_header_check")
+		return
+	}
 	h, err := rd.NextFrame()
 	_, isProto := err.(ws.ProtocolError)
 	vAssert(isProto == broken, "step.protocol_error_iff_broken")
